@@ -335,7 +335,7 @@ impl Property for C10 {
     fn cases(&self, tier: Tier) -> u32 {
         match tier {
             Tier::Quick => 25_000,
-            Tier::Thorough => 100_000,
+            Tier::Thorough => 800_000,
         }
     }
 
